@@ -9,6 +9,8 @@ import SqlObjVerif.Lemmas.InhSelXAlt
 import SqlObjVerif.Lemmas.InhSelXPatch
 import SqlObjVerif.Lemmas.InhSelXSelectChain
 import SqlObjVerif.Lemmas.InhIterX
+import SqlObjVerif.Lemmas.InhIterXFetch
+import SqlObjVerif.Lemmas.InhIterXNext
 /-!
 # C15 — inheritance hierarchies stay consistent across their tables
 
@@ -1144,9 +1146,33 @@ open SqlObjVerif.PyIS
 
 `fetchChildrenX` (`Model/InhIterX.lean`) RUNS the translated `fetchChildren`; `IW.c1` are the rows still pending on the
 iteration's OWN cursor (the batches to come), `IW.c2` those on the cursor `rawconn.cursor()` opens for the prefetch;
-`_executeRetry(rawconn, cursor, query)` replaces what is pending on THAT cursor.  Proved for every batch so far: the
-grouping loop and the storing loop (`Lemmas/InhIterX.lean`: `loop0_run`, `loop2_run`); the whole method and `next` (also
-translated: `iterNextProg`) are not yet proved for all inputs. -/
+`_executeRetry(rawconn, cursor, query)` replaces what is pending on THAT cursor.  `fetchChildren` is proved for every batch below. -/
+
+/-- **`InheritableIteration.fetchChildren`, translated, for every batch** (any rows, any number of kinds, any answers of
+    the database): the ids of the batch are grouped by `childName` in order of first appearance (`groupL`), each group is
+    fetched with ONE query (`id = i` for one id, `IN` otherwise) executed on the SECOND cursor and its rows are stored by
+    id (an empty row as `(None,)`): `childrenOf`.  The rows still pending on the iteration's OWN cursor (`c1`) and the batch
+    (`results`) are exactly what they were — re-using `self.cursor` for the prefetch (seeded changes C10-f1 / C11-f1 /
+    C15-e3 / C15-f2) makes this false: `_executeRetry` replaces what is pending on the cursor it is given -/
+theorem C15_translated_fetchChildren_eq_model (X : ICtx) (crows : Nat → Sql → List (Nat × Val))
+    (hrf : ∀ d e, X.rowsFor d e = (crows d e).map crowV) (hgood : ∀ d e r, r ∈ crows d e → isListVal r.2 = true)
+    (n : Nat) (hcni : X.cni = some n) (w : IW) (rs : List (Nat × List Val × Option Nat))
+    (hres : w.results = Val.ofList (rs.map rowOf)) (hlen : ∀ r, r ∈ rs → r.2.1.length = n) :
+    fetchChildrenX X w =
+      .ret { w with c2 := [], children := childrenOf crows (rs.foldl groupL []) .nil } .none :=
+  fetchChildrenX_eq X crows hrf hgood n hcni w rs hres hlen
+
+/-- **`InheritableIteration.next`, translated, one step inside a batch**: with a row left in `self._results` that row —
+    and no other — is delivered: `sourceClass.get` is handed its id, the rest of the row as `selectResults` and the child row
+    prefetched for that id (which leaves `_childrenResults`; None when there is none); the batch shrinks by that row; neither
+    cursor is touched, so the rows pending beyond the batch stay pending.  (The step that fetches the next batch =
+    `fetchmany()` + the `fetchChildren` theorem above, the `StopIteration` step and the induction over the batches — the drain
+    theorem — are not proved yet.) -/
+theorem C15_translated_next_batch_step (X : NCtx) (w : IW) (r : Nat × List Val × Option Nat) (rest : List Val)
+    (hres : w.results = .cons (rowOf r) (Val.ofList rest)) (hch : isListVal w.children = true) :
+    nextX X w = .ret { w with results := Val.ofList rest, children := chAfter w.children r.1 }
+      (X.getRes r.1 (Val.ofList (r.2.1 ++ [tagV r.2.2])) (crOf w.children r.1)) :=
+  nextX_batch X w r rest hres hch
 
 /-- the database of the witness: class 3 has rows 1 (one column) and 2 (no column value), class 2 has row 4 -/
 def X1 : ICtx :=
